@@ -239,6 +239,19 @@ func (o *c05Oracle) Finish(st *stage.Stage, res *check.Result) {
 				res.Probe("interference-unjudged(no cycle after/before)")
 				continue
 			}
+			// "while fan2go regulates the fan": the cycle after the interference must not be the fan's last one (a
+			// cycle that ends in a control error - a never-stop fan stalled at its maximum, say - is followed by
+			// the hand-back to the original mode, which is C03's business)
+			later := false
+			for _, c := range cycles {
+				if c.StartSeq > n.StartSeq {
+					later = true
+				}
+			}
+			if !later {
+				res.Probe("interference-unjudged(regulation of the fan ended with that cycle)")
+				continue
+			}
 			// other interference between pre's end and n's end on this fan?
 			burst := []c05Interf{}
 			for _, other := range its {
